@@ -1318,6 +1318,10 @@ fn role_templates() -> Vec<Tpl> {
     // namespace
     t("namespace", "plain", prog("namespace @ { int hf(int ha) { return ha; } }", "int r = @::hf(1);"));
     t("namespace", "nested", prog("namespace Nh { namespace @ { int hf(int ha) { return ha; } } }", "int r = Nh::@::hf(1);"));
+    // a namespace that holds a cbuffer, a global, a struct and an enum that are all used through the qualified name
+    // (added after a seeded change that qualified cbuffer members with the source namespace name was missed)
+    t("namespace", "holding-cbuffer", prog("namespace @ { cbuffer Ch { int hc; int hd; } }", "int r = @::hc + @::hd;"));
+    t("namespace", "holding-mixed", prog("namespace @ { cbuffer Ch { int hc; } static int hg = 2; struct Hs { int hm; }; enum He { Ha, Hb }; }", "@::Hs hs; hs.hm = @::hc; int r = hs.hm + @::hg + (int)@::Hb;"));
     // cbuffer
     t("cbuffer", "plain", prog("cbuffer @ { int hc; }", "int r = hc;"));
     t("cbuffer-member", "plain", prog("cbuffer Ch { int @; int hc; }", "int r = @ + hc;"));
